@@ -53,7 +53,7 @@ def min_margin(s3):
             m.append(abs(float(d[k]) - 4.0))
             if d[k] > 4.0:
                 continue
-            n1, n2 = R[ri].base_normal_vector, R[rj].base_normal_vector
+            n1, n2 = T.base_normal(R[ri]), T.base_normal(R[rj])
             v = pi - pj
             if n1 is not None and n2 is not None and np.linalg.norm(v) > 0:
                 for n in (n1, n2):
@@ -78,8 +78,8 @@ def min_margin(s3):
     cent = []
     for i, r in enumerate(R):
         pts = [a.coordinates for nm in T.BASE_ATOMS.get(r.one_letter_name, []) for a in [r.find_atom(nm)] if a is not None]
-        if pts and r.base_normal_vector is not None:
-            cent.append((i, sum(pts) / len(pts), r.base_normal_vector))
+        if pts and T.base_normal(r) is not None:
+            cent.append((i, sum(pts) / len(pts), T.base_normal(r)))
 
     def ang(a, b):
         return math.degrees(math.acos(max(-1.0, min(1.0, float(np.dot(a, b) / np.linalg.norm(a) / np.linalg.norm(b))))))
